@@ -345,6 +345,13 @@ func (f *FuncCtx) specType(text string) types.Type {
 		pos = f.Decl.Body.Lbrace + 1
 	}
 	tv, err := types.Eval(f.Pkg.Fset, pkg, pos, text)
+	if err == nil && !tv.IsType() && pos != token.NoPos {
+		// inside a generic function a parameter may shadow a type of the same name (provide's bestSelector):
+		// type texts in contracts name types, so fall back to the package scope
+		if tv2, err2 := types.Eval(f.Pkg.Fset, pkg, token.NoPos, text); err2 == nil && tv2.IsType() {
+			tv = tv2
+		}
+	}
 	if err != nil && f.spec != nil && f.spec.pkg != nil && f.spec.pkg != pkg {
 		// contract text that belongs to another package (its axioms / callee contracts)
 		if tv2, err2 := types.Eval(f.Pkg.Fset, f.spec.pkg, token.NoPos, text); err2 == nil {
